@@ -340,14 +340,23 @@ fn rule_perform_math_ops(
     available_in: &AvailableValueMap<Register>,
 ) {
     if let Some(reg) = node.writes_to() {
+        // The zero register always holds 0, whatever is (not) known about it:
+        // `mv rd, rs` is `add rd, rs, x0` and has to behave like `addi rd, rs, 0`.
+        let value_of = |reg: &Register| {
+            if reg.is_const_zero() {
+                Some(AvailableValue::Constant(0))
+            } else {
+                available_in.get(reg).cloned()
+            }
+        };
         let lhs = match node {
-            ParserNode::Arith(expr) => available_in.get(expr.rs1.get()).cloned(),
-            ParserNode::IArith(expr) => available_in.get(expr.rs1.get()).cloned(),
+            ParserNode::Arith(expr) => value_of(expr.rs1.get()),
+            ParserNode::IArith(expr) => value_of(expr.rs1.get()),
             _ => None,
         };
 
         let rhs = match node {
-            ParserNode::Arith(expr) => available_in.get(expr.rs2.get()).cloned(),
+            ParserNode::Arith(expr) => value_of(expr.rs2.get()),
             ParserNode::IArith(expr) => Some(AvailableValue::Constant(expr.imm.get().value())),
             _ => None,
         };
